@@ -1,6 +1,7 @@
 package main
 
 import (
+	cryptodsa "github.com/go-i2p/crypto/dsa"
 	"bytes"
 	"crypto/ed25519"
 	"fmt"
@@ -462,6 +463,27 @@ func runC14(c *Ctx) {
 				}
 				c14Chain(c, "NewLeaseSet", nil, b, "")
 				c.Check("valid_arguments_accepted", b.ctorOK, "NewLeaseSet", nil, "", fmt.Sprintf("valid tuple rejected: %v", nerr))
+				if i < 6 {
+					// the legacy identity: NULL certificate (ElGamal + DSA-SHA1; the default key and
+					// signature sizes apply) and DSA declared in a KEY certificate
+					dk := genDSA(r)
+					lid := genIdentTypes(r, 0, 0, i%2 == 0)
+					lid.Spk = cp(dk.pub)
+					dpriv, perr := cryptodsa.NewDSAPrivateKey(dk.x)
+					if ld, _, lerr := destination.ReadDestination(lid.Encode()); lerr == nil && perr == nil {
+						lspk, _ := ld.SigningPublicKey()
+						lls, lnerr := lease_set.NewLeaseSet(ld, ek, lspk, mk(i%3), &dpriv)
+						lb := built{ctorOK: lnerr == nil, reparse: b.reparse}
+						if lnerr == nil {
+							lb.validOK = lls.Validate() == nil
+							var e error
+							lb.bytes, e = lls.Bytes()
+							lb.bytesOK = e == nil
+						}
+						c14Chain(c, "NewLeaseSet (DSA identity)", nil, lb, "")
+						c.Check("valid_arguments_accepted", lb.ctorOK, "NewLeaseSet (DSA identity)", nil, "", fmt.Sprintf("valid tuple rejected: %v", lnerr))
+					}
+				}
 				_, e1 := lease_set.NewLeaseSet(d, ek, spk, mk(17), &priv)
 				c14Defect(c, "NewLeaseSet", "more than 16 leases", e1 != nil, nil, "")
 				_, e2 := lease_set.NewLeaseSet(d, newFakeKey(255), spk, mk(1), &priv)
